@@ -25,6 +25,7 @@ for rel in sorted(files):
 # parameter names of the repository's own callables (functions by name, classes by their constructor), kept when the name is
 # unambiguous over all modules read: used to move keyword arguments back into their positions (normalize.positionalise_new_keywords)
 sigs, clash = {}, set()
+dfl, clash_d = {}, set()
 from sa import pyxfront as _pf
 for rel in sorted(files):
     with open(os.path.join(REPO, SRC, rel), encoding="utf-8") as f:
@@ -34,22 +35,32 @@ for rel in sorted(files):
         a = fn.args
         ps = [x.arg for x in a.posonlyargs + a.args]
         return ps[1:] if drop_self and ps and ps[0] in ("self", "cls") else ps
-    def note(name, ps):
+    def note(name, ps, fn=None):
         if name in sigs and sigs[name] != ps:
             clash.add(name)
         sigs[name] = ps
+        if fn is not None:
+            a = fn.args
+            pos = a.posonlyargs + a.args
+            d = {x.arg: ast.unparse(v) for x, v in zip(pos[len(pos) - len(a.defaults):], a.defaults)}
+            d.update({x.arg: ast.unparse(v) for x, v in zip(a.kwonlyargs, a.kw_defaults) if v is not None})
+            d = {k: v for k, v in d.items() if v in ("None", "True", "False") or v.lstrip("-").replace(".", "", 1).isdigit() or (v[:1] in "'\"" and v[-1:] == v[:1])}
+            if name in dfl and dfl[name] != d:
+                clash_d.add(name)
+            dfl[name] = d
     for st in tree.body:
         if isinstance(st, (ast.FunctionDef, ast.AsyncFunctionDef)):
-            note(st.name, params(st, False))
+            note(st.name, params(st, False), st)
         elif isinstance(st, ast.ClassDef):
             init = next((m for m in st.body if isinstance(m, ast.FunctionDef) and m.name in ("__init__", "__cinit__")), None)
             if init is not None:
-                note(st.name, params(init, True))
+                note(st.name, params(init, True), init)
             for m in st.body:
                 if isinstance(m, ast.FunctionDef) and not m.name.startswith("__"):
                     static = any(isinstance(d, ast.Name) and d.id == "staticmethod" for d in m.decorator_list)
-                    note("." + m.name, params(m, not static))
+                    note("." + m.name, params(m, not static), m)
 out["__signatures__"] = {k: v for k, v in sigs.items() if k not in clash}
+out["__defaults__"] = {k: v for k, v in dfl.items() if k not in clash and k not in clash_d and v}
 with open(os.path.join("/verif/sa/localnames.json"), "w") as f:
     json.dump(out, f, indent=0, sort_keys=True)
 mods = {k: v for k, v in out.items() if not k.startswith("__")}
